@@ -112,6 +112,13 @@ def run_shard(mod, spec):
     rng = common.rng_for(mod.PROP, seed, "base", bi)
     case = mod.gen_base(rng, tier, bi)
     case["tier"] = tier
+    if getattr(mod, "START_METHODS", False) and case.get("kind", "pool") == "pool":
+        # non-default multiprocessing contexts: workers are pickled, nothing is inherited (the monitor is
+        # re-installed inside the worker); one base per quick run, 2 of 12 in thorough
+        if (tier == "quick" and bi == 7) or (tier == "thorough" and bi % 12 == 5):
+            case["start"] = "spawn"
+        elif tier == "thorough" and bi % 12 == 11:
+            case["start"] = "forkserver"
     if getattr(mod, "INSTR_HOT", None):
         case["instr_hooks"] = list(mod.INSTR_HOT)
     scratch = common.scratch_dir("vf-pool-")
@@ -184,6 +191,11 @@ def run_shard(mod, spec):
         dry = evaluate(dry_case, pe.run_case(dry_case, scratch), "dry run")
         if dry.get("status") == "completed":
             plans, nsites = delay_plans(case, dry, mod, tier, rng)
+            if case.get("start", "fork") != "fork":
+                # a spawned worker costs a fresh interpreter: sample the plans
+                k = 10 if tier == "quick" else 40
+                plans = rng.sample(plans, min(k, len(plans)))
+                res.count("bases_with_start_method_" + case["start"])
             res.count("sites_in_dry_runs", nsites)
             res.count("delay_plans", len(plans))
             for pi, pl in enumerate(plans):
